@@ -51,7 +51,9 @@ func OutputValue(ctx context.Context, value rel.Value, w io.Writer, out string) 
 	default:
 		s = fu.Repr(v)
 	}
-	fmt.Fprintf(w, "%s", s)
+	if _, err := fmt.Fprintf(w, "%s", s); err != nil {
+		return err
+	}
 	if s != "" && !strings.HasSuffix(s, "\n") {
 		if _, err := w.Write([]byte{'\n'}); err != nil {
 			return err
